@@ -33,7 +33,7 @@ class C02(Check):
     stub_components = ["AirChannel bit-flip injector"]
     assumptions = ["messages are a seeded sample (the code is GF(2)-linear, so behaviour under an error pattern does not depend on the message if the "
                    "implementation is linear; that linearity is not proven here)",
-                   "reserved bit R(3) (outside the 13x15 matrix, never decoded) is part of the error enumeration but not compared in the 'never altered' clause"]
+                   "the repair flag is passed as True / 1 / numpy.bool_(True) in turn (and False / 0 / numpy.bool_(False) for the unrepaired decode)"]
     exhaustive = {}  # complete in the fault dimension per message, sampled in the message dimension: not claimed exhaustive
 
     def preload(self):
@@ -136,6 +136,8 @@ class C02(Check):
         inplace = bool(case.get("inplace"))
         import random as _random
 
+        import numpy
+
         for pi, p in enumerate(pats):
             if isinstance(p, dict):  # noise reception: a corrupted-beyond-repair word of some other transmission; nothing is judged
                 r = _random.Random(p["noise"])
@@ -160,19 +162,19 @@ class C02(Check):
             if w == 0:
                 if len(cw) != 196:
                     res.violate("C02.encode-length", mclass, f"encode returned {len(cw)} bits")
-                d1 = BPTC19696.deinterleave_data_bits(rx.copy(), True)
-                d0 = BPTC19696.deinterleave_data_bits(rx.copy(), False)
+                d1 = BPTC19696.deinterleave_data_bits(rx.copy(), (True, 1, numpy.bool_(True))[(sum(p) + len(p)) % 3])
+                d0 = BPTC19696.deinterleave_data_bits(rx.copy(), (False, 0, numpy.bool_(False))[(sum(p) + len(p)) % 3])
                 if d1.to01() != msg.to01() or d0.to01() != msg.to01():
                     self._fail(fails, res, "C02.clean-roundtrip", "clean", case, p, f"decode(with repair)={'ok' if d1.to01() == msg.to01() else 'WRONG'} decode(without repair)={'ok' if d0.to01() == msg.to01() else 'WRONG'}")
                 rep = BPTC19696.repair_if_necessary(bits=rx.copy())
-                diff = [i for i in range(196) if rep[i] != cw[i] and i in info and not info[i][2]]
+                diff = [i for i in range(196) if rep[i] != cw[i]]  # all 196 transmitted positions, the reserved bit R(3) included
                 if diff:
                     self._fail(fails, res, "C02.repair-alters-clean-codeword", "clean", case, p, f"repair changed positions {diff[:10]} of an error-free codeword")
                 res.fault("weight0")
                 log.add(0, "rx", "clean", (d1.to01() == msg.to01(), d0.to01() == msg.to01()))
                 continue
             rel = self._relation(p, info)
-            d = BPTC19696.deinterleave_data_bits(rx, True)
+            d = BPTC19696.deinterleave_data_bits(rx, (True, 1, numpy.bool_(True))[(sum(p) + len(p)) % 3])
             ok = d.to01() == msg.to01()
             log.add(0, "rx", p, ok)
             if informational:
